@@ -5,6 +5,7 @@ import (
 	"hash"
 	"hash/fnv"
 	"math"
+	"math/rand/v2"
 	"strings"
 	"time"
 
@@ -12,6 +13,7 @@ import (
 	"gonum.org/v1/gonum/mat"
 	"gonum.org/v1/gonum/stat/card"
 	"gonum.org/v1/gonum/stat/distmat"
+	"gonum.org/v1/gonum/stat/distmv"
 	"gonum.org/v1/gonum/unit"
 	"verif/simrt"
 )
@@ -324,9 +326,106 @@ func wishartConstFor(v *mat.SymDense, nu float64) uint64 {
 	return 0
 }
 
+// sharedMV is a multivariate distribution whose methods below are read-only
+// on the unchanged tree (distmv has no lazily built state): one value may be
+// evaluated and, with a stateless source, sampled from several goroutines.
+type sharedMV interface {
+	Rand([]float64) []float64
+	LogProb([]float64) float64
+	CovarianceMatrix(*mat.SymDense)
+	Mean([]float64) []float64
+}
+
+// mvConstFor finds a constant source under which mk's sampler terminates.
+func mvConstFor(mk func(src rand.Source) (sharedMV, bool)) uint64 {
+	for _, cand := range []uint64{0x9e3779b97f4a7c15, 0x3c6ef372fe94f82a, 0xdaa66d2c7ddf743f, 0x78dde6e5fd29f054, 0x1715609d7b7475fd, 0xb54cda56f8f7f3a6} {
+		ok := func() (ok bool) {
+			defer func() {
+				if recover() != nil {
+					ok = false
+				}
+			}()
+			calls := 0
+			d, good := mk(boundedSource{cand, &calls})
+			if !good {
+				return false
+			}
+			for _, x := range d.Rand(nil) {
+				if math.IsNaN(x) || math.IsInf(x, 0) {
+					return false
+				}
+			}
+			return true
+		}()
+		if ok {
+			return cand
+		}
+	}
+	return 0
+}
+
+// mvObs is what one client observes of a shared multivariate distribution.
+type mvObs struct {
+	rand, rand2, mean []float64
+	lp                float64
+	cov               mat.SymDense
+}
+
+func observeMV(d sharedMV, x []float64, sampleFirst bool) (o mvObs) {
+	if sampleFirst {
+		o.rand = d.Rand(nil)
+	}
+	o.lp = d.LogProb(x)
+	d.CovarianceMatrix(&o.cov)
+	o.mean = d.Mean(nil)
+	if !sampleFirst {
+		o.rand = d.Rand(nil)
+	}
+	o.rand2 = d.Rand(nil)
+	return o
+}
+
+func (o *mvObs) diff(ref *mvObs) string {
+	cmp := func(what string, a, b []float64) string {
+		if len(a) != len(b) {
+			return fmt.Sprintf("%s has %d elements, serially %d", what, len(a), len(b))
+		}
+		for i := range a {
+			if math.Float64bits(a[i]) != math.Float64bits(b[i]) {
+				return fmt.Sprintf("%s[%d] = %v, serially %v", what, i, a[i], b[i])
+			}
+		}
+		return ""
+	}
+	if d := cmp("Rand", o.rand, ref.rand); d != "" {
+		return d
+	}
+	if d := cmp("second Rand", o.rand2, ref.rand2); d != "" {
+		return d
+	}
+	if d := cmp("Mean", o.mean, ref.mean); d != "" {
+		return d
+	}
+	if math.Float64bits(o.lp) != math.Float64bits(ref.lp) {
+		return fmt.Sprintf("LogProb = %v, serially %v", o.lp, ref.lp)
+	}
+	n := ref.cov.SymmetricDim()
+	if o.cov.SymmetricDim() != n {
+		return fmt.Sprintf("CovarianceMatrix has order %d, serially %d", o.cov.SymmetricDim(), n)
+	}
+	for i := 0; i < n; i++ {
+		for j := i; j < n; j++ {
+			if math.Float64bits(o.cov.At(i, j)) != math.Float64bits(ref.cov.At(i, j)) {
+				return fmt.Sprintf("CovarianceMatrix[%d,%d] = %v, serially %v", i, j, o.cov.At(i, j), ref.cov.At(i, j))
+			}
+		}
+	}
+	return ""
+}
+
 func runWishart(t *simrt.Tape, rc *RunCtx) *Violation {
 	const prop = "C09"
-	rc.declare("lazy_state_built_under_contention", "register_hash_concurrent", "shared_sampler")
+	rc.declare("lazy_state_built_under_contention", "register_hash_concurrent", "shared_sampler", "shared_distmv")
 	n := 1 + t.Choose(simrt.KWorkload, 5)
 	r := &opRand{s: uint64(t.Choose(simrt.KValue, 1<<30))}
 	v := r.spd(n)
@@ -363,6 +462,42 @@ func runWishart(t *simrt.Tape, rc *RunCtx) *Violation {
 		sampler, _ = distmat.NewWishart(v, nu, constSource(k))
 		rc.probe("shared_sampler", 1)
 	}
+	// shared distmv values with a stateless source: Normal and StudentsT
+	// (nu > 2 so that the covariance exists)
+	mu := r.slice(n)
+	pts := make([][]float64, nclients)
+	for i := range pts {
+		pts[i] = r.slice(n)
+	}
+	mvNames := []string{"distmv.Normal", "distmv.StudentsT"}
+	mvMake := []func(src rand.Source) (sharedMV, bool){
+		func(src rand.Source) (sharedMV, bool) { return distmv.NewNormal(mu, v, src) },
+		func(src rand.Source) (sharedMV, bool) { return distmv.NewStudentsT(mu, v, nu+2, src) },
+	}
+	mvShared := make([]sharedMV, len(mvMake))
+	mvRef := make([][2][]mvObs, len(mvMake)) // [kind][sampleFirst][client]
+	for k, mk := range mvMake {
+		c := mvConstFor(mk)
+		if c == 0 {
+			continue
+		}
+		for sf := 0; sf < 2; sf++ {
+			mvRef[k][sf] = make([]mvObs, nclients)
+			for i := 0; i < nclients; i++ {
+				// a fresh value per reference observation: the first use of a
+				// value is what a lazily built field would be built in
+				calls := 0
+				one, _ := mk(boundedSource{c, &calls})
+				mvRef[k][sf][i] = observeMV(one, pts[i], sf == 1)
+			}
+		}
+		mvShared[k], _ = mk(constSource(c))
+		rc.probe("shared_distmv", 1)
+	}
+	mvGot := make([][]mvObs, len(mvMake))
+	for k := range mvGot {
+		mvGot[k] = make([]mvObs, nclients)
+	}
 	samples := make([]mat.SymDense, nclients)
 	chols := make([]mat.Cholesky, nclients)
 	cfg := drawConfig(t, 60)
@@ -385,6 +520,11 @@ func runWishart(t *simrt.Tape, rc *RunCtx) *Violation {
 			if sampler != nil {
 				sampler.RandSymTo(&samples[c])
 				sampler.RandCholTo(&chols[c])
+			}
+			for k, d := range mvShared {
+				if d != nil {
+					mvGot[k][c] = observeMV(d, pts[c], (c+k)%2 == 1)
+				}
 			}
 			// the hash registry (sync.Map) from several goroutines
 			card.RegisterHash(fnv.New64a)
@@ -427,6 +567,16 @@ func runWishart(t *simrt.Tape, rc *RunCtx) *Violation {
 	}
 	rc.probe("register_hash_concurrent", nclients)
 	rc.oracle("same-as-serial")
+	for k, d := range mvShared {
+		if d == nil {
+			continue
+		}
+		for c := 0; c < nclients; c++ {
+			if df := mvGot[k][c].diff(&mvRef[k][(c+k)%2][c]); df != "" {
+				return &Violation{prop, "shared-distmv/result-differs", fmt.Sprintf("client %d of %d on one shared %s with a stateless source: %s", c, nclients, mvNames[k], df)}
+			}
+		}
+	}
 	if sampler != nil {
 		var refU mat.TriDense
 		refChol.UTo(&refU)
